@@ -247,12 +247,12 @@ CHECKS["C18"] = dict(
     level=MC, engine="schedule-explorer",
     technique="preemption-bounded exhaustive exploration of real pthreads serialised by a baton (scheduling points at channel operations and at every operator new[]/delete[]), plus a separate free-running ThreadSanitizer pass",
     rule="bodies: own vectors (sum, commutators, both evolutions, rotation, UTransform -> matrix exponential), hand-over ring (a block allocated on one thread is released on the next and reused there), const queries of "
-         "all expectation-value overloads on one shared evolved solver, thread exit with a filled cache. Explorer pass (ASan, arena allocator): every interleaving of 2 threads with at most 2 preemptions (quick) / 2 and 3 "
+         "all expectation-value overloads on one shared evolved solver (odd threads start with a buffer-less query on a shared operator), thread exit with a filled cache, every thread building / evolving (GSL) / moving / querying its own solver. Explorer pass (ASan, arena allocator): every interleaving of 2 threads with at most 2 preemptions (quick) / 2 and 3 "
          "threads with bounds up to 4 (thorough), bound iterated 0,1,2,..; oracle: each thread's results bit-identical to the sequential schedule and to the main thread's values, ledger clean, nothing retained after all "
          "threads ended, blocks cached by a thread released when it ends. Race pass (clang -fsanitize=thread, free running, 20 repetitions per body): any report is a violation. "
          "states/transitions = choice points executed, traces = complete executions",
     assumptions=["GSL is not instrumented", "at most 3 threads", "race freedom is decided by the happens-before detector of the free-running pass; the explorer enumerates interleavings at synchronisation / allocation granularity"],
-    runs=[run("c18", ["c18.cpp"], "asan", shards=4),
+    runs=[run("c18", ["c18.cpp"], "asan", shards=5),
           run("c18_tsan", [("c18.cpp", ["-DC18_FREE"])], "tsan", env={"TSAN_OPTIONS": "halt_on_error=0:exitcode=66:second_deadlock_stack=1"})],
 )
 NOT_APPLICABLE = {}
